@@ -616,6 +616,46 @@ func c17ExplicitFalse(r *vp.InstResult) {
 			r.Outcomes[label]++
 		}
 	}
+	// custom_return_type is documented as not applicable to plain rpc, unicast and multicast: there is no quorum
+	// function that could produce the custom type. Such a declaration must be rejected with a diagnostic or
+	// change nothing - a stub that converts the reply to the custom type cannot work.
+	for _, base := range []gen.MethodSpec{{Name: "M", In: "Req", Out: "Resp"}, {Name: "M", In: "Req", Out: "Resp", Unicast: true}, {Name: "M", In: "Req", Out: "Resp", Multicast: true}} {
+		gen3 := func(m gen.MethodSpec) (map[string]string, string, error) {
+			c := &genCase{spec: gen.ServiceSpec{Pkg: "xf", Service: "Svc", Messages: []string{"Req", "Resp", "Custom"}, Methods: []gen.MethodSpec{m}}}
+			if err := runPlugins(c, "protoc-gen-gorums", nil); err != nil {
+				return nil, "", err
+			}
+			r.Execs++
+			if c.res.Exit != 0 || c.res.Error != "" {
+				diag, _ := c.res.Diagnostic()
+				return nil, firstLine(diag), nil
+			}
+			return c.res.Files, "", nil
+		}
+		want, _, err := gen3(base)
+		if err != nil {
+			r.Error = err.Error()
+			return
+		}
+		m := base
+		m.CustomRet = "Custom"
+		got, gdiag, err := gen3(m)
+		if err != nil {
+			r.Error = err.Error()
+			return
+		}
+		label := base.Label()
+		if label == "" {
+			label = "plain rpc"
+		}
+		label += " + custom_return_type"
+		if gdiag == "" {
+			if d, ok := sameFiles(want, got); !ok {
+				addViol(r, "C17/custom-return-type", label, fmt.Sprintf("%s (documented as not applicable) is accepted without a diagnostic and changes the generated stub: %s", label, d), nil)
+			}
+		}
+		r.Outcomes[label]++
+	}
 	r.States, r.Steps = r.Execs, r.Execs
 	r.Sample = map[string]any{"method": "rpc M(Req) returns (Resp) { option (gorums.quorumcall) = false; }", "expected": "the same output as for the method without options"}
 }
